@@ -281,41 +281,57 @@ def pytable(run, p):
 
 
 def flags(run, p):
-    run.rule('C19-FLAGS', 'the spellings -1 --tagged -0 --istagged are literals of the argv parser; the tagged / list-tagged flags start '
-                          'False and are only ever set to True (one spelling cannot cancel another); both are returned')
+    from ..pyeval import Interp, Unsupported, Raised
+    run.rule('C19-FLAGS', 'over representative command lines (-1 -0 and their bundles with other letters, --tagged, --istagged, both, '
+                          'mixed with -W / --write-all / --wquiet / unittest options and test names) _set_flags_from_argv returns '
+                          'tagged exactly when -1 or --tagged was given and list-tagged exactly when -0 or --istagged was given, '
+                          'never lets one spelling cancel another, and hands unittest an argv without those options and with '
+                          'everything else in place - decided by abstract execution of the parser')
     f = p.fn('tdda.referencetest.referencetestcase._set_flags_from_argv')
-    lits = {x.value for x in ast.walk(f.node) if isinstance(x, ast.Constant) and isinstance(x.value, str)}
-    for k in ('1', '0', '--tagged', '--istagged'):
-        run.ob('C19-FLAGS', 'literal:%s' % k, k in lits, 'spelling %r %s' % (k, 'present' if k in lits else 'MISSING'), fn=f, nontrivial=False)
-    for var in ('tagged', 'check'):
-        asg = [s for s in ast.walk(f.node) if isinstance(s, ast.Assign) and any(norm(t) == var for t in s.targets)]
-        init = [s for s in asg if isinstance(s.value, ast.Constant) and s.value.value is False]
-        later = [s for s in asg if s not in init]
-        ok = len(init) == 1 and bool(later) and all(isinstance(s.value, ast.Constant) and s.value.value is True for s in later) \
-            and init[0].lineno < min(s.lineno for s in later)
-        bad = [s for s in later if not (isinstance(s.value, ast.Constant) and s.value.value is True)]
-        run.ob('C19-FLAGS', 'monotone:%s' % var, ok, '%s: initialised False once, then %s' % (var, 'only set to True' if ok else
-                                                                                           'assigned `%s`' % (norm(bad[0]) if bad else '?')), fn=f,
-               node=bad[0] if bad else None)
-    rets = [r for r in ast.walk(f.node) if isinstance(r, ast.Return)]
-    ok = len(rets) == 1 and norm(rets[0].value).replace(' ', '') == '(argv,tagged,check)'
-    run.ob('C19-FLAGS', 'return', ok, 'returns %s' % (norm(rets[0].value) if rets else None), fn=f, nontrivial=False)
-    # which literal sets which flag
-    gm = GuardMap(f.node)
-    for var, want in (('tagged', {'1', '--tagged'}), ('check', {'0', '--istagged'})):
-        got = set()
-        for s in ast.walk(f.node):
-            if isinstance(s, ast.Assign) and any(norm(t) == var for t in s.targets) and isinstance(s.value, ast.Constant) and s.value.value is True:
-                for g in gm.chain(s) or ():
-                    if g.kind == 'if' and g.pol:
-                        got |= {x.value for x in ast.walk(g.test) if isinstance(x, ast.Constant) and isinstance(x.value, str)} & {'1', '0', '--tagged', '--istagged', '-0'}
-                    if g.kind == 'if' and not g.pol:
-                        pass
-                # else-arm of `option in ('-0', '--istagged')` means the remaining option of the loop tuple
-                chain = gm.chain(s) or ()
-                for g in chain:
-                    if g.kind == 'if' and not g.pol and '--istagged' in ast.unparse(g.test):
-                        got.add('--tagged')
-        ok = want <= got or (var == 'tagged' and '1' in got and '--tagged' in got)
-        run.ob('C19-FLAGS', 'wiring:%s' % var, want <= got, '%s is switched on by %s (documented %s)' % (var, sorted(got), sorted(want)), fn=f)
-    run.floor('C19-FLAGS', 9, 9)
+    cases = [
+        ['t.py'], ['t.py', '-1'], ['t.py', '-0'], ['t.py', '-10'], ['t.py', '-01'], ['t.py', '-1W'], ['t.py', '-W'], ['t.py', '-W0'],
+        ['t.py', '--tagged'], ['t.py', '--istagged'], ['t.py', '--tagged', '--istagged'], ['t.py', '--istagged', '--tagged'],
+        ['t.py', '-1', '--istagged'], ['t.py', '-0', '--tagged'], ['t.py', '-v', '--tagged'], ['t.py', '-1', 'TestX'],
+        ['t.py', '-1v'], ['t.py', '-v1'], ['t.py', '-0', 'TestX.test_a'], ['t.py', '--write-all', '--tagged'], ['t.py', '--W'],
+        ['t.py', '--wquiet', '--tagged'], ['t.py', '-1', '--write-all'], ['t.py', 'TestX', '--tagged'], ['t.py', '-q', '-1'],
+    ]
+    n = 0
+    for argv in cases:
+        I = Interp(p)
+        calls = []
+
+        def hook(m, args, kwargs, selfobj, calls=calls):
+            if m.name in ('set_regeneration', 'set_defaults'):
+                calls.append((m.name, tuple(args), tuple(sorted(kwargs.items()))))
+                return True, None
+            return False, None
+        I.on_call = hook
+        try:
+            out = I.call(f, [list(argv)])
+        except Raised as e:
+            out = ('raised', str(e))
+        except Unsupported as e:
+            raise AnalysisError('_set_flags_from_argv is not evaluable: %s' % e)
+        # what the documentation says
+        lead = []
+        for a in argv[1:]:
+            if a.startswith('-') and not a.startswith('--'):
+                lead.append(a)
+            else:
+                break
+        want_tagged = any('1' in a[1:] for a in lead) or '--tagged' in argv[1:]
+        want_check = any('0' in a[1:] for a in lead) or '--istagged' in argv[1:]
+        n += 1
+        ok = isinstance(out, tuple) and len(out) == 3 and out[0] != 'raised'
+        msg = 'returns %r' % (out,)
+        if ok:
+            rest, tagged, check = out
+            kept = [a for a in rest[1:]]
+            leftovers = [a for a in kept if a in ('--tagged', '--istagged') or (a in lead and ('1' in a or '0' in a))]
+            others = [a for a in argv[1:] if a not in ('--tagged', '--istagged', '--write-all', '--W', '--wquiet', '-wquiet')
+                      and not (a in lead and set(a[1:]) <= set('W10'))]
+            survived = all(any(o.replace('1', '').replace('0', '').replace('W', '') == k or o == k for k in kept) for o in others)
+            ok = bool(tagged) == want_tagged and bool(check) == want_check and not leftovers and survived
+            msg = 'tagged=%s (expected %s), list-tagged=%s (expected %s), argv for unittest %r' % (tagged, want_tagged, check, want_check, rest)
+        run.ob('C19-FLAGS', 'argv=%s' % ' '.join(argv[1:]), ok, '%s: %s' % (' '.join(argv), msg), fn=f)
+    run.floor('C19-FLAGS', n, 20)
